@@ -777,6 +777,12 @@ def run(ctx) -> None:
     r8_ext_arms(ctx, m, me)
     ctx.rule("C12.R9", "symbols declare their parameters by position and constrain copyable type parameters under that name", floor=2)
     r9_symbol_params(ctx, m)
+    ctx.rule("C12.R10", "the link listings the exporter searches for static inputs enumerate the value ports 0..n-1 only (shared with C04.R7)", floor=2)
+    from .c04 import r6_r7_tables, r7_listings
+    hugr_cls = ctx.program.cls("hugr.hugr.base.Hugr")
+    with ctx.as_rule(C04_R7="C12.R10", C04_R6="C12.R10"):
+        r6_r7_tables(ctx, hugr_cls, hugr_cls.module.path, only={"links"})
+        r7_listings(ctx, hugr_cls, hugr_cls.module.path)
     from .. import lints
     lints.arm(ctx)
 
